@@ -261,6 +261,23 @@ def check_which(c, repo):
     # _spawn
     sp = repo.func('pty_spawn:spawn._spawn')
     ws = [k for k in calls_in(sp.node) if callee_last(k) == 'which']
+    # a remembered answer (`_located_commands.get(key)` of a module-level table) in front of which(): whether the remembered location is still
+    # what which() would find for THIS environment is a question about the table's contents -- the key may or may not capture everything
+    mods_ = set(n_.targets[0].id for n_ in sp.module.tree.body if isinstance(n_, ast.Assign) and len(n_.targets) == 1 and isinstance(n_.targets[0], ast.Name)
+                and isinstance(n_.value, (ast.Dict, ast.Call)))
+    cached = [k for k in calls_in(sp.node) if isinstance(k.func, ast.Attribute) and k.func.attr in ('get', 'setdefault', '__getitem__') and isinstance(k.func.value, ast.Name)
+              and k.func.value.id in mods_] + [x for x in iter_nodes(sp.node) if isinstance(x, ast.Subscript) and isinstance(x.value, ast.Name) and x.value.id in mods_]
+    def argt(e):
+        return ctext(e, sp, stale_ok=True) if e is not None else None
+    if cached and len(ws) == 1 and ws[0].args and argt(ws[0].args[0]) == 'self.command' and argt(call_arg(ws[0], 'env', 1)) == 'self.env':
+        # decided all the same: a key built from the PROCESS environment only cannot tell two requested environments apart
+        keyt = ' '.join(argt(a_) or '' for k_ in cached if isinstance(k_, ast.Call) for a_ in k_.args) + ' ' + \
+            ' '.join(argt(x_.slice) or '' for x_ in cached if isinstance(x_, ast.Subscript))
+        c.check(not ('os.environ' in keyt and 'self.env' not in keyt), sp, cached[0],
+                'a remembered command location is keyed by the PATH of the requested environment (not by the process environment only)', witness=keyt[:160], kind='flow', tag='spawn-which-env')
+        if 'os.environ' in keyt and 'self.env' not in keyt:
+            return
+        raise AnalysisError('spawn._spawn: the resolved command may come from the module-level table %s instead of which(): cannot be decided' % norm(cached[0])[:50])
     ok = len(ws) == 1 and ws[0].args and norm(ws[0].args[0]) == 'self.command' and call_arg(ws[0], 'env', 1) is not None and norm(call_arg(ws[0], 'env', 1)) == 'self.env'
     c.check(ok, sp, ws[0] if ws else None, 'the command is resolved against the PATH of the requested environment (env=self.env)', witness=norm(ws[0]) if ws else '', kind='ast', tag='spawn-which-env')
 
